@@ -6,7 +6,7 @@
    therefore the scaling theorems carry the suffix _partial. *)
 From Coq Require Import ZArith QArith Qabs List Bool.
 From CV Require Import Base.Val Base.Bytes Base.Bits Base.Tys Gen.Tables Model.Codec Model.Views
-  Proofs.Codec_proofs Proofs.Views_proofs.
+  Proofs.Codec_proofs Proofs.Views_proofs Gen.Src Proofs.Src_eq_views.
 Import ListNotations.
 Open Scope Z_scope.
 
@@ -219,6 +219,17 @@ Example C20_nv_cell :
       VL [VZ 0; VB [170; 244; 31; 85]]; VL [VZ 8180; VB [170; 244; 31; 85]]].
 Proof. vm_compute. repeat split; reflexivity. Qed.
 
+(* Tie to the source text: ODVariable.decode_bits / encode_bits as translated from the CURRENT source by
+   tools/py2coq.py (Gen/Src.v, regenerated on every run) are the model's functions on every non-empty
+   list of non-negative bit numbers (the bit-definition lookup by name is resolved before, see resolve). *)
+Theorem C20_source_decode_bits_is_model : forall value bits, bits <> [] -> Forall (fun b => 0 <= b) bits ->
+  decode_bits_list value bits = Ok (src_decode_bits value bits).
+Proof. exact src_decode_bits_eq. Qed.
+
+Theorem C20_source_encode_bits_is_model : forall original bits bit_value, bits <> [] -> Forall (fun b => 0 <= b) bits ->
+  encode_bits_list original bits bit_value = Ok (src_encode_bits original bits bit_value).
+Proof. exact src_encode_bits_eq. Qed.
+
 Print Assumptions C20_bits_set_exact.
 Print Assumptions C20_bits_get_after_set.
 Print Assumptions C20_bits_get_exact.
@@ -237,3 +248,5 @@ Print Assumptions C20_views_over_store_phys_partial.
 Print Assumptions C20_cell_set_spec.
 Print Assumptions C20_cell_is_store.
 Print Assumptions C20_bits_on_cell.
+Print Assumptions C20_source_decode_bits_is_model.
+Print Assumptions C20_source_encode_bits_is_model.
